@@ -164,8 +164,19 @@ def formatF : Dec → Str
     (if neg then ['-'] else []) ++ (if sg then ['s'] else []) ++ ['N', 'a', 'N']
       ++ (if diag = 0 then [] else natStr diag)
 
+/-- exponent limits of the decimal module: a finite value needs
+`exp + ndigits - 1 ≤ MAX_EMAX` and `exp ≥ MIN_ETINY`, otherwise the constructor
+signals `InvalidOperation` -/
+def Dec.inRange : Dec → Bool
+  | .fin _ coeff exp =>
+    exp + ((natStr coeff).length : Int) - 1 ≤ Tables.decMaxEmax && Tables.decMinEtiny ≤ exp
+  | _ => true
+
 /-- `DecimalConverter.deserialize` for a `str` -/
-def decimalDeserialize (e : Env) (s : Str) : Option Dec := decimalParse e s
+def decimalDeserialize (e : Env) (s : Str) : Option Dec :=
+  match decimalParse e s with
+  | some d => if d.inRange then some d else none
+  | none => none
 
 /-- `DecimalConverter.serialize`:
 `str(value).replace("Infinity", "INF") if value.is_infinite() else f"{value:f}"` -/
